@@ -26,7 +26,7 @@ Lemma replace_child_spec d n c ch ch' :
   let n' := Node (n_cap n) (n_items n) (replace_at c ch' (n_children n)) in
   shape (S d) n' /\ flatten n' = flatten n.
 Proof.
-  intros Sh E Sch' Fl n'. pose proof Sh as (H1 & H2 & L & F).
+  intros Sh E Sch' Fl n'. pose proof Sh as (H1 & H2 & L & F & Cpx).
   assert (Hc : c < length (n_children n)) by (eapply nth_error_lt; eauto).
   assert (E' : nth_error (n_children n') c = Some ch') by (apply replace_at_nth_error; auto).
   assert (L' : length (n_children n') = S (n_count n')) by (unfold n', n_count; simpl; rewrite replace_at_length; auto).
@@ -57,7 +57,7 @@ Lemma merge_children_spec d par j par' :
   shape (S d) par -> merge_children par (S j) = Some par' ->
   shape (S d) par' /\ flatten par' = flatten par.
 Proof.
-  intros Sh M. pose proof Sh as (H1 & H2 & L & F). unfold merge_children in M.
+  intros Sh M. pose proof Sh as (H1 & H2 & L & F & Cpx). unfold merge_children in M.
   replace (S j - 1) with j in M by lia.
   destruct (nth_error (n_children par) j) as [n1|] eqn:E1; [|discriminate].
   destruct (nth_error (n_children par) (S j)) as [n2|] eqn:E2; [|discriminate].
@@ -75,9 +75,9 @@ Proof.
     - destruct S1 as (A1 & A2 & A3). destruct S2 as (B1 & B2 & B3). unfold Mn. rewrite A3, B3. simpl.
       unfold n_count in *. simpl. rewrite app_length. simpl. split; [repeat split; auto; lia|].
       rewrite (flatten_leaf n1), (flatten_leaf n2) by (unfold is_leaf; rewrite ?A3, ?B3; reflexivity). reflexivity.
-    - destruct S1 as (A1 & A2 & A3 & A4). destruct S2 as (B1 & B2 & B3 & B4). unfold Mn. split.
-      + simpl. unfold n_count in *. simpl. rewrite !app_length. simpl. repeat split; auto; try lia.
-        apply Forall_app. auto.
+    - destruct S1 as (A1 & A2 & A3 & A4 & A5). destruct S2 as (B1 & B2 & B3 & B4 & B5). unfold Mn. split.
+      + simpl. unfold n_count in *. simpl. rewrite !app_length. simpl.
+        split; [lia|]. split; [lia|]. split; [lia|]. split; [apply Forall_app; auto | exact A5].
       + cbn [flatten]. rewrite map_app. rewrite interleave_app2 by (rewrite map_length; exact A3).
         rewrite <- !flatten_unfold. reflexivity. }
   destruct SM as [SM FM].
@@ -93,7 +93,7 @@ Proof.
     remember (skipn (S j) (n_items par)) as K eqn:EK.
     cbn [BTreeBase.shape]. unfold n_count in *. cbn [n_items n_cap n_children]. unfold remove_at. rewrite <- EK.
     rewrite !app_length. cbn [length]. rewrite !firstn_length_le by lia. rewrite LT, LK.
-    split; [lia|]. split; [lia|]. split; [lia|].
+    split; [lia|]. split; [lia|]. split; [lia|]. split; [|exact Cpx].
     apply Forall_app. split; [apply Forall_firstn; auto|]. constructor; auto.
   - assert (Fpar : flatten par = pre par j ++ flatten n1 ++ sep :: flatten n2 ++
         tailpart (map flatten (skipn (S (S j)) (n_children par))) (skipn (S j) (n_items par))).
@@ -142,7 +142,7 @@ Proof.
   induction fuel; intros d r np sp Sh; simpl; eauto.
   destruct ((n_count r =? 0) && negb (is_leaf r)) eqn:E; simpl; eauto.
   apply andb_true_iff in E. destruct E as [E1 E2]. apply Nat.eqb_eq in E1. apply negb_true_iff in E2.
-  destruct (shape_internal _ _ _ Sh E2) as [d' ->]. pose proof Sh as (_ & _ & L & F).
+  destruct (shape_internal _ _ _ Sh E2) as [d' ->]. pose proof Sh as (_ & _ & L & F & Cpx).
   destruct (n_children r) as [|ch cs] eqn:Ec; [simpl in L; lia|].
   assert (cs = []) by (destruct cs; simpl in L; [reflexivity | lia]). subst cs.
   inversion F; subst.
@@ -178,7 +178,7 @@ Proof.
     pose proof (shape_child _ _ _ _ _ Sh E) as Sch. simpl in Lp.
     destruct (IH d' ch j Sch V' H ltac:(lia)) as [S' F'].
     cbn [update_at before after]. rewrite E.
-    pose proof Sh as (H1 & H2 & L & F).
+    pose proof Sh as (H1 & H2 & L & F & Cpx).
     assert (Hc : c < length (n_children n)) by (eapply nth_error_lt; eauto).
     set (ch' := update_at p (remove_item j) ch) in *.
     set (n' := Node (n_cap n) (n_items n) (replace_at c ch' (n_children n))).
